@@ -244,6 +244,10 @@ def classify(spec) -> list:
             if u not in dead and vs & dead:
                 dead.add(u)
                 changed = True
+        for c in spec['sel']:   # the origin of a choice that has no option left can never exist either
+            if c['origin'] not in dead and c['options'] and all(o in dead for o in c['options']):
+                dead.add(c['origin'])
+                changed = True
     # LINKED selection choices whose numbers of (not pruned) options differ
     for c in spec['constraints']:
         if c['type'] == 'LINKED' and all(x in origin_of for x in c['choices']):
